@@ -13,6 +13,7 @@ namespace StepModel.P21
     or aggregate element (`SDAI_Select::STEPread`), or through a redeclared position (forwarded to the redefining attribute) -/
 inductive Path where
   | select | redecl
+  | nested      -- a typed select value handed on to a member that is itself a select (type name already read)
   deriving DecidableEq, Repr, Inhabited
 
 inductive Val where
@@ -113,6 +114,7 @@ def encodeVal : Val → List String
   | .cons h t => encodeVal h ++ encodeVal t
   | .via .select v => "Vs" :: encodeVal v
   | .via .redecl v => "Vr" :: encodeVal v
+  | .via .nested v => "Vn" :: encodeVal v
 
 def encodeInst (i : Inst) : String :=
   " ".intercalate ((if i.comment.isEmpty then [] else ["K" ++ hexOf i.comment]) ++ ["I", toString i.id, toString i.parts.length] ++
@@ -125,7 +127,8 @@ def decodeVal : Nat → List String → Option (Val × List String)
   | fuel + 1, w :: ws =>
     if w = "N" then some (.null, ws) else if w = "D" then some (.derived, ws)
     else if w = "Vs" then (decodeVal fuel ws).map (fun (v, r) => (.via .select v, r))
-    else if w = "Vr" then (decodeVal fuel ws).map (fun (v, r) => (.via .redecl v, r)) else
+    else if w = "Vr" then (decodeVal fuel ws).map (fun (v, r) => (.via .redecl v, r))
+    else if w = "Vn" then (decodeVal fuel ws).map (fun (v, r) => (.via .nested v, r)) else
     match w.toList with
     | 'T' :: r => (unhex (String.ofList r)).map (fun s => (.tok s, ws))
     | 'R' :: r => (String.ofList r).toInt?.map (fun i => (.ref i, ws))
